@@ -234,6 +234,30 @@ func genC14(seed, index uint64, tier string) *Plan {
 		}
 		return
 	}
+	if g.Chance(0.04) {
+		// a schema document that is valid JSON Schema but not an object: `false` is satisfied by nothing
+		cs := ChartSpec{Name: "demo", Version: "3.0.0", Values: map[string]interface{}{"name": "ok"}, Schema: "false"}
+		cs.Slots = []ResSlot{{Kind: "ConfigMap", Name: "cm1", File: "a.yaml", Marker: g.Marker(), Data: map[string]string{"k": "$name"}}}
+		where := "root"
+		if g.Chance(0.5) {
+			cs.Schema = ""
+			sc := SubchartSpec{Name: "subone", Values: map[string]interface{}{"s": "fine"}, Schema: "false"}
+			sc.Slots = []ResSlot{{Kind: "ConfigMap", Name: "sub-cm1", File: "s.yaml", Marker: g.Marker(), Data: map[string]string{"s": "$s"}}}
+			cs.Subcharts = []SubchartSpec{sc}
+			where = "sub"
+		}
+		p.Charts = []ChartSpec{cs}
+		op := OpSpec{Op: "install", Chart: 0, Values: map[string]interface{}{}, SkipSchema: g.Chance(0.15)}
+		if g.Chance(0.3) {
+			op.DryRun, op.DryRunOption, op.ClientOnly, op.Replace = true, "true", true, true
+		}
+		op.Description = fmt.Sprintf("c14:%s:true:%s", where, "false-schema")
+		p.Steps = append(p.Steps, Step{Op: &op})
+		p.Variant = "boolean-schema"
+		p.Policy = "uniform"
+		p.Schedule = g.Schedule(16)
+		return p.Clone()
+	}
 	shape := g.N(5)
 	if shape == 4 {
 		// three levels: root -> middle (with or without its own schema) -> leaf with a schema
